@@ -42,8 +42,8 @@ ASSUMPTIONS = [
     "runs hit by the recorded Anderson finding are excluded by using aa_depth = 0 here (C04 owns that finding)",
 ]
 FLOORS = {
-    "quick": {"identity_zero": 90, "swap_symmetric": 180, "scaling_linear": 250, "first_moment_bound": 650, "true_minimum_bound": 140, "thin_grid_unique_flux": 150, "frontend_equals_backend": 400, "emd": 150},
-    "thorough": {"identity_zero": 450, "swap_symmetric": 1300, "scaling_linear": 1800, "first_moment_bound": 6000, "true_minimum_bound": 1100, "thin_grid_unique_flux": 2300, "frontend_equals_backend": 3000, "emd": 1000},
+    "quick": {"identity_zero": 90, "swap_symmetric": 180, "scaling_linear": 250, "first_moment_bound": 650, "true_minimum_bound": 140, "thin_grid_unique_flux": 150, "frontend_equals_backend": 400, "emd": 300, "emd_object_reused_across_cases": 20},
+    "thorough": {"identity_zero": 450, "swap_symmetric": 1300, "scaling_linear": 1800, "first_moment_bound": 6000, "true_minimum_bound": 1100, "thin_grid_unique_flux": 2300, "frontend_equals_backend": 3000, "emd": 2000, "emd_object_reused_across_cases": 200},
 }
 SHARD_TIMEOUT = {"quick": 1500, "thorough": 6000}
 LAW_GRIDS = [(9,), (30,), (4, 5), (1, 12), (8, 8), (12, 10), (3, 3, 3), (4, 5, 6), (2, 1, 9), (17, 16)]
@@ -107,6 +107,7 @@ def run_shard(spec, R):
     from vf.gen import wass
     from vf.gen.images import rng_for
 
+    shared = {}
     recorded = []  # boundary record of every distance returned in this shard
 
     def solve(method, grid_imgs, l1, mob, weight=None, extra=None, num_iter=8, frontend=False):
@@ -154,38 +155,49 @@ def run_shard(spec, R):
             continue
 
         if fam == "emd":
-            emd = darsia.EMD()
+            # one EMD object serves every case of the shard (same pixel shapes recur with other voxel sizes); the
+            # front-end builds a fresh object per call, so frontend_equals_backend also decides history independence
+            if "emd" not in shared:
+                shared["emd"] = darsia.EMD()
+            emd = shared["emd"]
             kind = c["kind"]
-            a, b = wass.mass_pair(rng, shape, kind)
-            if np.array_equal(a, b):
-                R.skip("emd:identical_pair")
-                continue
-            m1, m2 = wass.images(darsia, a, b, h)
-            ok, d12 = R.guarded("emd", lambda: emd(m1, m2))
-            if not ok:
-                continue
-            f = M.flat(b - a) * M.volume
-            sc = max(abs(d12), 1e-300)
-            if kind == "single":
-                ia = np.argwhere(a != 0)[0]
-                ib = np.argwhere(b != 0)[0]
-                exp = float(a[tuple(ia)]) * M.volume * float(np.linalg.norm((ib - ia) * np.array(h)))
-                R.check(abs(d12 - exp) <= 1e-5 * max(exp, 1e-300), "emd", {**desc, "law": "single_cell_move", "got": d12, "expected": exp})
-            ok, d21 = R.guarded("emd", lambda: emd(m2, m1))
-            if ok:
-                R.check(abs(d12 - d21) <= 1e-5 * sc, "emd", {**desc, "law": "swap", "d12": d12, "d21": d21})
-            cc = float(rng.choice([0.5, 2.0, 8.0, 0.3, 7.7]))
-            s1, s2 = wass.images(darsia, cc * a, cc * b, h)
-            ok, ds = R.guarded("emd", lambda: emd(s1, s2))
-            if ok:
-                R.check(abs(ds - cc * d12) <= 1e-5 * cc * sc, "emd", {**desc, "law": "scaling", "c": cc, "scaled": ds, "base": d12})
-            fm = TR.first_moment_bound(M, M.flat(b - a))
-            R.check(d12 >= fm - 1e-5 * max(fm, sc), "emd", {**desc, "law": "first_moment", "distance": d12, "bound": fm})
-            fe = darsia.wasserstein_distance(m1, m2, "cv2.emd")
-            R.check(float(fe) == float(d12), "frontend_equals_backend", {**desc, "frontend": float(fe), "backend": d12})
-            R.sig(["emd", c["grid"], kind], True, cls="emd")
-            if c["id"] % 16 == 0:
-                R.sample({**desc, "emd": d12})
+            # the same pixel shape is used twice in a row with two different voxel sizes on the same object
+            for rep_h in (h, [float(10 ** rng.uniform(-0.7, 0.7)) for _ in shape]):
+                h = rep_h
+                R.count("emd_object_reused_across_cases", int(shared.get("emd_calls", 0) > 0))
+                shared["emd_calls"] = shared.get("emd_calls", 0) + 1
+                M = GridModel(shape, h)
+                desc["voxel_size"] = h
+                a, b = wass.mass_pair(rng, shape, kind)
+                if np.array_equal(a, b):
+                    R.skip("emd:identical_pair")
+                    continue
+                m1, m2 = wass.images(darsia, a, b, h)
+                ok, d12 = R.guarded("emd", lambda: emd(m1, m2))
+                if not ok:
+                    continue
+                f = M.flat(b - a) * M.volume
+                sc = max(abs(d12), 1e-300)
+                if kind == "single":
+                    ia = np.argwhere(a != 0)[0]
+                    ib = np.argwhere(b != 0)[0]
+                    exp = float(a[tuple(ia)]) * M.volume * float(np.linalg.norm((ib - ia) * np.array(h)))
+                    R.check(abs(d12 - exp) <= 1e-5 * max(exp, 1e-300), "emd", {**desc, "law": "single_cell_move", "got": d12, "expected": exp})
+                ok, d21 = R.guarded("emd", lambda: emd(m2, m1))
+                if ok:
+                    R.check(abs(d12 - d21) <= 1e-5 * sc, "emd", {**desc, "law": "swap", "d12": d12, "d21": d21})
+                cc = float(rng.choice([0.5, 2.0, 8.0, 0.3, 7.7]))
+                s1, s2 = wass.images(darsia, cc * a, cc * b, h)
+                ok, ds = R.guarded("emd", lambda: emd(s1, s2))
+                if ok:
+                    R.check(abs(ds - cc * d12) <= 1e-5 * cc * sc, "emd", {**desc, "law": "scaling", "c": cc, "scaled": ds, "base": d12})
+                fm = TR.first_moment_bound(M, M.flat(b - a))
+                R.check(d12 >= fm - 1e-5 * max(fm, sc), "emd", {**desc, "law": "first_moment", "distance": d12, "bound": fm})
+                fe = darsia.wasserstein_distance(m1, m2, "cv2.emd")
+                R.check(float(fe) == float(d12), "frontend_equals_backend", {**desc, "frontend": float(fe), "backend": d12})
+                R.sig(["emd", c["grid"], kind], True, cls="emd")
+                if c["id"] % 16 == 0:
+                    R.sample({**desc, "emd": d12})
             continue
 
         a, b = wass.mass_pair(rng, shape, c["mass"])
